@@ -209,6 +209,9 @@ func (e *endpoint) sendSettings(ss []http2.Setting, deadline time.Time) error {
 		case http2.SettingInitialWindowSize:
 			e.initPending = int64(s.Val)
 		case http2.SettingMaxFrameSize:
+			if int64(s.Val) < e.frameAcked {
+				e.shrinkSent = true
+			}
 			e.framePending = int64(s.Val)
 		}
 	}
@@ -257,7 +260,10 @@ type Script struct {
 	// END_STREAM, RST_STREAM, new HEADERS) still have to pass
 	// an endpoint that starts with a large SETTINGS_MAX_FRAME_SIZE and lowers it to the minimum
 	// later, while frames sized for the old limit wait in the relay for credit
-	ClientInitFrame, ServerInitFrame       uint32
+	ClientInitFrame, ServerInitFrame uint32
+	// Hold: no credit at all until the shrink has been acknowledged, then lumps of 30000 octets, so
+	// that the relay holds frames sized for the old limit and releases them in parts larger than the new one
+	ClientHold, ServerHold                 bool
 	ClientNoReturn, ServerNoReturn         bool
 	ClientNoReturnConn, ServerNoReturnConn bool
 	Features                               map[string]bool
@@ -267,6 +273,7 @@ type Options struct {
 	Padding, Continuation, BigHeaders, Trailers, Reset, Push, Priority bool
 	WindowChanges, FrameSizeChanges, TableSizeChanges                  bool
 	NoReturn                                                           bool
+	ManyStreams                                                        bool
 	Policies                                                           []string
 	MaxStreams                                                         int
 	MaxBody                                                            int
@@ -364,8 +371,21 @@ func genDir(r *lib.RNG, o Options, client bool) []Elem {
 func GenScript(r *lib.RNG, o Options) *Script {
 	s := &Script{Features: map[string]bool{}}
 	ns := r.Range(1, o.MaxStreams)
+	// many short messages on one connection, each ending on a non-empty DATA frame: more than a
+	// whole connection window is consumed by final frames alone
+	many := o.ManyStreams && r.Chance(1, 10)
+	if many {
+		ns = 24
+		s.Features["many-short-messages"] = true
+	}
 	for i := 0; i < ns; i++ {
 		ss := StreamScript{ID: uint32(1 + 2*i), C2S: genDir(r, o, true), S2C: genDir(r, o, false)}
+		if many {
+			short := func(client bool) []Elem {
+				return []Elem{{Kind: "H", Hdrs: genHeaders(r, Options{}, true, client)}, {Kind: "D", Data: r.Bytes(r.Range(3000, 5000)), End: true}}
+			}
+			ss.C2S, ss.S2C = short(true), short(false)
+		}
 		if o.Push && r.Chance(1, 6) {
 			// PUSH_PROMISE header blocks are kept below one frame: x/net's Framer (used by the relay
 			// and by these endpoints for de-framing) rejects CONTINUATION after PUSH_PROMISE
@@ -446,6 +466,37 @@ func GenScript(r *lib.RNG, o Options) *Script {
 		s.Features["pregrant"] = true
 	}
 	s.ClientSlow, s.ServerSlow = r.Chance(1, 6), r.Chance(1, 5)
+	// an endpoint that shrinks its frame size gets its credit back in large lumps, so that frames
+	// sized for the old limit are released in parts that are still larger than the new one
+	if s.ClientInitFrame > 0 {
+		s.ClientWin, s.ClientPol, s.ClientPregrant, s.ClientSlow = 65535, "bursty", false, false
+	}
+	if s.ServerInitFrame > 0 {
+		s.SrvWin, s.SrvPol, s.ServerPregrant, s.ServerSlow = 65535, "bursty", false, false
+	}
+	big := func(dir *[]Elem) {
+		// one message of 150000 octets in three DATA elements after the first HEADERS
+		for k, el := range *dir {
+			if el.Kind == "H" {
+				h := el
+				h.End = false
+				*dir = append(append([]Elem{}, (*dir)[:k]...), h, Elem{Kind: "D", Data: r.Bytes(50000)}, Elem{Kind: "D", Data: r.Bytes(50000)}, Elem{Kind: "D", Data: r.Bytes(50000), End: true})
+				return
+			}
+		}
+	}
+	if s.ClientInitFrame > 0 && r.Chance(1, 2) {
+		s.ClientHold, s.ClientInitFrame, s.ClientPol = true, 65536, "hold-then-lumps"
+		s.ClientChanges = [][]http2.Setting{{{ID: http2.SettingMaxFrameSize, Val: 16384}}}
+		big(&s.Streams[0].S2C)
+		s.Features["frame-size-shrinks-while-held"] = true
+	}
+	if s.ServerInitFrame > 0 && r.Chance(1, 2) {
+		s.ServerHold, s.ServerInitFrame, s.SrvPol = true, 65536, "hold-then-lumps"
+		s.ServerChanges = [][]http2.Setting{{{ID: http2.SettingMaxFrameSize, Val: 16384}}}
+		big(&s.Streams[0].C2S)
+		s.Features["frame-size-shrinks-while-held"] = true
+	}
 	if s.ClientSlow || s.ServerSlow {
 		s.Features["slow-reader"] = true
 	}
@@ -849,6 +900,9 @@ func (rg *Rig) Run(sc *Script, r *lib.RNG, hb *lib.Heartbeat) Result {
 		rr := r.Sub(3)
 		for _, ss := range sc.ClientChanges {
 			time.Sleep(time.Duration(rr.Intn(3000)) * time.Microsecond)
+			if sc.ClientHold {
+				time.Sleep(60 * time.Millisecond) // let the sender park frames of the old size first
+			}
 			noteErr("client settings change", ce.sendSettings(ss, deadline))
 		}
 		for i := 0; i < sc.Pings; i++ {
@@ -867,6 +921,9 @@ func (rg *Rig) Run(sc *Script, r *lib.RNG, hb *lib.Heartbeat) Result {
 		rr := r.Sub(4)
 		for _, ss := range sc.ServerChanges {
 			time.Sleep(time.Duration(rr.Intn(3000)) * time.Microsecond)
+			if sc.ServerHold {
+				time.Sleep(60 * time.Millisecond)
+			}
 			noteErr("server settings change", se.sendSettings(ss, deadline))
 		}
 	}()
